@@ -54,6 +54,7 @@ def run(ctx, impl_only=False):
         t = gt.container(1); u = gt.edits(t, ctx.rng.randint(1, 3))
         w = ctx.rng.choice([lambda x: x, lambda x: [x, 0], lambda x: {'t': x}])
         pairs.append((w(t), w(u)))
+    pairs += FAM.rich_pairs(ctx, n // 4)
     lines, metas = [], []
     grid = [(z, thr) for z in (False, True) for thr in (0, 0.33, 0.9)]
     for i, (t1, t2) in enumerate(pairs):
